@@ -219,6 +219,13 @@ struct N1<T> {
 struct OA<T> {
     a: Option<Vec<Option<L0<T>>>>,
 }
+/// a newtype STRUCT as the target for the whole document (not transparent): the document still is the source
+#[derive(Deserialize, Debug)]
+#[allow(dead_code)]
+struct RN0<T>(L0<T>);
+#[derive(Deserialize, Debug)]
+#[allow(dead_code)]
+struct RN1<T>(L1<T>);
 #[derive(Deserialize, Debug)]
 #[allow(dead_code)]
 enum En {
@@ -230,6 +237,9 @@ enum En {
 fn layouts(lit: &str) -> Vec<(String, &'static str, Vec<&'static str>)> {
     vec![
         (format!("x = {}\n", lit), "L0", vec!["x"]),
+        (format!("x = {} # é\n", lit), "RN0", vec!["x"]),
+        (format!("[t]\nx = {}\n", lit), "RN1", vec!["t", "x"]),
+        (format!("t = {{ x = {} }}\n", lit), "RN1", vec!["t", "x"]),
         (format!("# é😀\nx = {} # é\n", lit), "L0", vec!["x"]),
         (format!("t.x = {}", lit), "L1", vec!["t", "x"]),
         (format!("[t]\n'x' = {}\n", lit), "L1", vec!["t", "x"]),
@@ -436,6 +446,12 @@ pub fn typed(rep: &mut Report) {
                     }
                 } else {
                     acc.bump("mismatch-located-by-key-path");
+                    // a document that was made editable (or a value taken from one) has no spans any more: an error
+                    // raised from it must not carry a stale range
+                    if (route.contains("DocumentMut") || route.contains("despanned")) && e.span.is_some() {
+                        acc.viol("U-typed", label, None, format!("the error carries the range {:?} although it was raised from a document / value whose spans were dropped by into_mut(): a stale location ({})", e.span, e.message));
+                        continue;
+                    }
                     if e.message.trim().is_empty() {
                         acc.viol("U-typed", label, None, "error with an empty message".into());
                     } else if !rel_path.is_empty() && !e.shown.contains(&format!("in `{}", rel_path)) && !(e.span.is_some() && parse_line_col(&e.shown).is_some()) {
@@ -449,6 +465,8 @@ pub fn typed(rep: &mut Report) {
             let mut check = |target: &str, routes: Vec<RouteRes>| judge(acc, target, path, routes);
             match shape {
                 "L0" => try_targets!(L0, doc, check),
+                "RN0" => try_targets!(RN0, doc, check),
+                "RN1" => try_targets!(RN1, doc, check),
                 "L1" => try_targets!(L1, doc, check),
                 "L2" => try_targets!(L2, doc, check),
                 "A1" => try_targets!(A1, doc, check),
@@ -463,7 +481,7 @@ pub fn typed(rep: &mut Report) {
         let rel = keys[1..].join(".");
         let mut check = |target: &str, routes: Vec<RouteRes>| judge(acc, target, &rel, routes);
         match shape {
-            "L1" => try_value_targets!(L0, doc, keys[0], check),
+            "L1" | "RN1" => try_value_targets!(L0, doc, keys[0], check),
             "L2" => try_value_targets!(L1, doc, keys[0], check),
             "A1" => try_value_targets!(VecL0, doc, keys[0], check),
             _ => {}
@@ -472,7 +490,7 @@ pub fn typed(rep: &mut Report) {
     let (total, mut acc) = sweep_list(&cases, &f);
     acc.evals -= total; // sweep_list counted the seed lines; the closure counted the real (document, target, route) triples
     let n = acc.evals;
-    rep.absorb("U-typed", "9 literals x 19 layouts (inline, dotted, header, nested, array of tables, Option<struct>, newtype, Option<Vec<Option<struct>>>, multi-byte neighbours) x 9 target types x every decoding route (7 with the source text: span demanded; 3 document routes and 5 single-value routes without it: key path demanded)", n, true, t0, acc);
+    rep.absorb("U-typed", "9 literals x 22 layouts (inline, dotted, header, nested, array of tables, Option<struct>, newtype, Option<Vec<Option<struct>>>, multi-byte neighbours) x 9 target types x every decoding route (7 with the source text: span demanded; 3 document routes and 5 single-value routes without it: key path demanded)", n, true, t0, acc);
 }
 
 /// multi-byte seeds: every truncation and every single-character edit
